@@ -33,7 +33,7 @@ pub static PROP: Prop = Prop {
         "an NTPv4 cookie is what the length field says (padding included), as RFC 7822 framing defines it",
     ],
     profiles: Profiles::Both,
-    cases: |t| t.pick(6_000, 120_000),
+    cases: |t| t.pick(5_000, 90_000),
     budget_s: |t| t.pick(40, 400),
     run,
     min_nontrivial: 50,
